@@ -4,7 +4,7 @@ from . import build, explore
 
 
 def main():
-    for v in ("plain", "asan", "tsan"):
+    for v in ("plain", "asan", "tsan", "mcoff"):
         build.build(v, quiet=False)
     explore.shim()
     print("setup ok")
